@@ -6,7 +6,7 @@ import ast, itertools
 import z3
 from . import values as V
 from .values import SInt, SBool, Seq, SMap, Obj, Opaque, mk, zint, zbool, Unsupported, to_seq
-from .engine import Raised, PathAbort
+from .engine import Raised, PathAbort, LoopCutEnd
 from .resolver import Repo, ModuleInfo, ClassInfo, FuncInfo, ExtName, ExtModule, BUILTIN_EXC
 
 MAX_UNROLL = 300
@@ -1273,7 +1273,17 @@ class Interp:
             else:
                 items = self.iterate(v)
             if any(isinstance(x, ast.Starred) for x in t.elts):
-                raise Unsupported('starred assignment')
+                si = [j for j, x in enumerate(t.elts) if isinstance(x, ast.Starred)][0]
+                nafter = len(t.elts) - si - 1
+                if len(items) < len(t.elts) - 1:
+                    raise Raised('ValueError')
+                head, mid, tail = items[:si], items[si:len(items) - nafter], items[len(items) - nafter:]
+                for tt, vv in zip(t.elts[:si], head):
+                    self.assign(tt, vv, fr)
+                self.assign(t.elts[si].value, list(mid), fr)
+                for tt, vv in zip(t.elts[si + 1:], tail):
+                    self.assign(tt, vv, fr)
+                return
             if len(items) != len(t.elts):
                 raise Raised('ValueError')
             for tt, vv in zip(t.elts, items):
@@ -1695,6 +1705,8 @@ class Interp:
 
     def do_havoc(self, s, fr, ann):
         names, attrs = self.havoc_targets(s, fr)
+        keep = set(getattr(ann, 'keep', ()))
+        attrs = [a for a in attrs if a.attr not in keep]
         for nm in sorted(names):
             nm2 = mangle(nm, fr.cls)
             if nm2 in fr.env:
@@ -1759,7 +1771,7 @@ class Interp:
             except _Continue:
                 pass
             st.prove('inv:%s#preserve' % ann.name, ann.invariant(view, i + 1), kind='helper')
-            raise PathAbort()
+            raise LoopCutEnd()
         else:
             st.assume(ann.invariant(view, n))
             self.block(s.orelse, fr)
@@ -1772,6 +1784,8 @@ class Interp:
         st.prove('inv:%s#entry' % ann.name, ann.invariant(view, None), kind='helper')
         which = st.branch(2, 'loop:%s' % ann.name)
         self.do_havoc(s, fr, ann)
+        if getattr(ann, 'havoc', None) is not None:
+            ann.havoc(view)
         st.assume(ann.invariant(view, None))
         if which == 0:
             if not self.decide(self.ev(s.test, fr)):
@@ -1787,7 +1801,7 @@ class Interp:
             if v0 is not None:
                 v1 = ann.variant(view)
                 st.prove('var:%s' % ann.name, mk(z3.And(zint(v0) >= 0, zint(v1) < zint(v0))), kind='helper')
-            raise PathAbort()
+            raise LoopCutEnd()
         else:
             if self.decide(self.ev(s.test, fr)):
                 raise PathAbort()
